@@ -20,11 +20,18 @@ import (
 
 // C18: zapslog.Handler over a JSON core.  A case is a program:
 //
-//	(mask #name (cmd ...))
+//	(mask #name (cmd ...) [enabler])
 //	cmd = (0 parent #group)            handlers = append(handlers, handlers[parent].WithGroup(group))
 //	    | (1 parent (attr ...))        handlers = append(handlers, handlers[parent].WithAttrs(attrs))
 //	    | (2 h level #msg (attr ...))  handlers[h].Enabled(level); handlers[h].Handle(record)
+//	    | (3 mask)                     the core's LevelEnabler now enables exactly the zap levels of mask
+//	    | (4 h level #msg (attr ...))  handlers[h].Enabled(level); slog.New(handlers[h]).LogAttrs(level, msg, attrs...)
 //
+// The core's enabler is dynamic: enabler 0 (omitted) = a zap.LevelEnablerFunc reading the
+// current mask, enabler 1 = a zap.AtomicLevel moved with SetLevel (masks are then the
+// thresholds 15 debug / 14 info / 12 warn / 8 error / 0 dpanic).  The root handler is built
+// while the core is at the case's initial mask; (3 mask) moves the level while the handlers
+// derived so far stay in use.
 // Attributes are built with the real slog constructors and READ BACK from the slog values
 // (Record.Attrs, Value.Kind/Group/LogValuer/Any), so the case holds what the handler really
 // receives (GroupValue and Record.AddAttrs drop directly-empty groups on their own).
@@ -53,10 +60,12 @@ type c18cmd struct {
 	attrs  []slog.Attr
 	level  slog.Level
 	msg    string
+	mask   int // kind 3
 }
 
 type c18stats struct {
 	derive, handles, written                  int
+	moves, afterMove                          int  // level moves; Handle/Log calls made after a level move
 	special                                   bool // an empty attr / group / LogValuer / empty group name occurs
 	groupsNamed                               int
 	maxDepth                                  int
@@ -332,12 +341,45 @@ func c18prune(t SX) SX {
 
 func c18copyAttrs(a []slog.Attr) []slog.Attr { return append([]slog.Attr(nil), a...) }
 
+// the AtomicLevel threshold whose enabled set over the four mapped levels is mask
+func c18atomLevel(mask int) (zapcore.Level, bool) {
+	switch mask {
+	case 15:
+		return zapcore.DebugLevel, true
+	case 14:
+		return zapcore.InfoLevel, true
+	case 12:
+		return zapcore.WarnLevel, true
+	case 8:
+		return zapcore.ErrorLevel, true
+	case 0:
+		return zapcore.DPanicLevel, true
+	}
+	return 0, false
+}
+
 func c18run(c *Ctx, mask int, name string, cmds []c18cmd, class string) {
+	c18runDyn(c, mask, name, cmds, class, 0)
+}
+
+func c18runDyn(c *Ctx, mask int, name string, cmds []c18cmd, class string, enabler int) {
 	st := &c18stats{}
 	var buf, jbuf bytes.Buffer
-	enab := zap.LevelEnablerFunc(func(l zapcore.Level) bool {
-		return l >= -1 && l <= 2 && mask&(1<<uint(int(l)+1)) != 0
-	})
+	cur := mask // the level of the core NOW
+	var enab zapcore.LevelEnabler
+	var atom zap.AtomicLevel
+	if enabler == 1 {
+		l0, ok := c18atomLevel(mask)
+		if !ok {
+			panic("c18: AtomicLevel case with a mask that is not a threshold")
+		}
+		atom = zap.NewAtomicLevelAt(l0)
+		enab = atom
+	} else {
+		enab = zap.LevelEnablerFunc(func(l zapcore.Level) bool {
+			return l >= -1 && l <= 2 && cur&(1<<uint(int(l)+1)) != 0
+		})
+	}
 	core := zapcore.NewCore(zapcore.NewJSONEncoder(c18cfg), zapcore.AddSync(&buf), enab)
 	handlers := []slog.Handler{zapslog.NewHandler(core, zapslog.WithName(name))}
 	// second opinion on the reading of the contract: the standard library's JSONHandler
@@ -348,6 +390,9 @@ func c18run(c *Ctx, mask int, name string, cmds []c18cmd, class string) {
 	var outs []SX
 	defer func() {
 		input := L(I(mask), Str(name), L(xs...))
+		if enabler != 0 {
+			input = L(I(mask), Str(name), L(xs...), I(enabler))
+		}
 		if r := recover(); r != nil {
 			// reported after the last case line (the driver pairs verdicts with lines by position)
 			c18viols = append(c18viols, c18viol{fmt.Sprintf("panic escaped from zapslog.Handler: %v", r), L(I(mask), Str(name), c18cmdsSX(c, cmds))})
@@ -357,9 +402,12 @@ func c18run(c *Ctx, mask int, name string, cmds []c18cmd, class string) {
 		if st.derive >= 2 && st.written >= 1 && st.special {
 			nt = "1"
 		}
+		if st.derive >= 1 && st.written >= 1 && st.afterMove >= 1 {
+			nt = "1"
+		}
 		c.Emit(input, L(outs...), map[string]string{
 			"nt": nt, "class": class, "derive": strconv.Itoa(st.derive), "handles": strconv.Itoa(st.handles),
-			"written": strconv.Itoa(st.written), "depth": strconv.Itoa(st.maxDepth),
+			"written": strconv.Itoa(st.written), "depth": strconv.Itoa(st.maxDepth), "moves": strconv.Itoa(st.moves),
 		})
 		c18json[0] += st.jsonAgree
 		c18json[1] += st.jsonDiffer
@@ -383,17 +431,37 @@ func c18run(c *Ctx, mask int, name string, cmds []c18cmd, class string) {
 			handlers = append(handlers, handlers[cm.parent].WithAttrs(c18copyAttrs(cm.attrs)))
 			jh = append(jh, jh[cm.parent].WithAttrs(c18copyAttrs(cm.attrs)))
 			st.derive++
-		case 2:
+		case 3:
+			xs = append(xs, L(I(3), I(cm.mask)))
+			cur = cm.mask
+			if enabler == 1 {
+				l, ok := c18atomLevel(cm.mask)
+				if !ok {
+					panic("c18: AtomicLevel case with a mask that is not a threshold")
+				}
+				atom.SetLevel(l)
+			}
+			st.moves++
+		case 2, 4:
 			rec := slog.NewRecord(time.Time{}, cm.level, cm.msg, 0)
 			rec.AddAttrs(c18copyAttrs(cm.attrs)...)
 			var seen []slog.Attr
 			rec.Attrs(func(a slog.Attr) bool { seen = append(seen, a); return true })
-			xs = append(xs, L(I(2), I(cm.parent), Z(int64(cm.level)), Str(cm.msg), c18attrsSX(c, seen, st, 1)))
+			xs = append(xs, L(I(cm.kind), I(cm.parent), Z(int64(cm.level)), Str(cm.msg), c18attrsSX(c, seen, st, 1)))
 			h := handlers[cm.parent]
 			en := h.Enabled(ctx, cm.level)
 			buf.Reset()
-			err := h.Handle(ctx, rec.Clone())
+			var err error
+			if cm.kind == 2 {
+				err = h.Handle(ctx, rec.Clone())
+			} else {
+				// what a user of log/slog does: the Logger asks Enabled and calls Handle only if so
+				slog.New(h).LogAttrs(ctx, cm.level, cm.msg, c18copyAttrs(cm.attrs)...)
+			}
 			st.handles++
+			if st.moves > 0 {
+				st.afterMove++
+			}
 			line := buf.Bytes()
 			switch {
 			case err != nil:
@@ -445,8 +513,10 @@ func c18cmdsSX(c *Ctx, cmds []c18cmd) SX {
 			xs = append(xs, L(I(0), I(cm.parent), Str(cm.group)))
 		case 1:
 			xs = append(xs, L(I(1), I(cm.parent), c18attrsSX(c, cm.attrs, st, 1)))
+		case 3:
+			xs = append(xs, L(I(3), I(cm.mask)))
 		default:
-			xs = append(xs, L(I(2), I(cm.parent), Z(int64(cm.level)), Str(cm.msg), c18attrsSX(c, cm.attrs, st, 1)))
+			xs = append(xs, L(I(cm.kind), I(cm.parent), Z(int64(cm.level)), Str(cm.msg), c18attrsSX(c, cm.attrs, st, 1)))
 		}
 	}
 	return L(xs...)
@@ -811,6 +881,150 @@ func c18siblings(c *Ctx, r *RNG, n int) {
 	}
 }
 
+// ---------- the core's level moves while handlers exist ----------
+
+var c18thresholds = []int{15, 14, 12, 8, 0} // debug, info, warn, error, above error
+
+// c18levelProgram: the root handler is built at seq[0]; in every phase two handlers are
+// derived (one from the root, one from the handler derived in the previous phase), then every
+// slog level of c18levels is logged through Handle and through a Logger on the root, the
+// earliest derived handler, the previous phase's handlers and this phase's; then the core
+// moves to the next level of seq.
+func c18levelProgram(seq []int, shape int) []c18cmd {
+	var p []c18cmd
+	next := 1
+	early := -1
+	var prev []int
+	for ph, m := range seq {
+		if ph > 0 {
+			p = append(p, c18cmd{kind: 3, mask: m})
+		}
+		var mine []int
+		par := 0
+		if len(prev) > 0 {
+			par = prev[len(prev)-1]
+		}
+		switch (shape + ph) % 3 {
+		case 0:
+			p = append(p, c18cmd{kind: 0, parent: 0, group: fmt.Sprintf("p%d", ph)})
+			p = append(p, c18cmd{kind: 1, parent: par, attrs: []slog.Attr{slog.Int("a", ph)}})
+		case 1:
+			p = append(p, c18cmd{kind: 1, parent: 0, attrs: []slog.Attr{slog.String("b", "x")}})
+			p = append(p, c18cmd{kind: 0, parent: par, group: fmt.Sprintf("q%d", ph)})
+		default:
+			p = append(p, c18cmd{kind: 0, parent: 0, group: ""})
+			p = append(p, c18cmd{kind: 1, parent: par, attrs: []slog.Attr{{}, gAttr("e")}})
+		}
+		mine = append(mine, next, next+1)
+		next += 2
+		if early < 0 {
+			early = mine[1]
+		}
+		hs := append([]int{0, early}, prev...)
+		hs = append(hs, mine...)
+		seen := map[int]bool{}
+		for _, h := range hs {
+			if seen[h] {
+				continue
+			}
+			seen[h] = true
+			for _, l := range c18levels {
+				p = append(p, c18cmd{kind: 2, parent: h, level: l, msg: "lm", attrs: []slog.Attr{slog.Int("y", 2)}})
+				p = append(p, c18cmd{kind: 4, parent: h, level: l, msg: "lm", attrs: []slog.Attr{slog.Int("y", 2)}})
+			}
+		}
+		prev = mine
+	}
+	return p
+}
+
+func c18levelMoves(c *Ctx) {
+	T := c18thresholds
+	var seqs [][]int
+	// every ordered pair of distinct thresholds, continued back and part-way again
+	for _, a := range T {
+		for _, b := range T {
+			if a != b {
+				seqs = append(seqs, []int{a, b}, []int{a, b, a, 14, 8, 15})
+			}
+		}
+	}
+	// sweeps: down, up, zigzag, the demo's warn -> debug -> error -> info
+	seqs = append(seqs,
+		[]int{0, 8, 12, 14, 15}, []int{15, 14, 12, 8, 0}, []int{12, 15, 8, 14}, []int{8, 15, 0, 14, 12, 15},
+		[]int{14, 0, 15, 8, 12, 0, 14}, []int{0, 15, 0, 15})
+	for i, s := range seqs {
+		c18runDyn(c, s[0], "", c18levelProgram(s, i), "levelmoves-atomic", 1)
+		c18runDyn(c, s[0], "lv", c18levelProgram(s, i+1), "levelmoves-func", 0)
+	}
+	// enablers that are not thresholds (a dynamic LevelEnablerFunc): every mask to every other
+	// through a fixed third one
+	for a := 0; a < 16; a++ {
+		for b := 0; b < 16; b++ {
+			if a != b {
+				c18runDyn(c, a, "", c18levelProgram([]int{a, b, (a ^ 5) & 15, 15 &^ b}, a+b), "levelmoves-masks", 0)
+			}
+		}
+	}
+}
+
+// random programs in which level moves, derivations, Handle and Logger calls interleave
+func c18dynamic(c *Ctx, r *RNG, n int) {
+	for k := 0; k < n; k++ {
+		enabler := r.Intn(2)
+		pick := func() int {
+			if enabler == 1 || r.Chance(50) {
+				return c18thresholds[r.Intn(len(c18thresholds))]
+			}
+			return r.Intn(16)
+		}
+		mask := pick()
+		ncmd := r.Range(4, 28)
+		depths := []int{0}
+		var p []c18cmd
+		for i := 0; i < ncmd; i++ {
+			x := r.Intn(100)
+			if i == ncmd-1 {
+				x = 99
+			}
+			switch {
+			case x < 25: // derive, from any handler (also ones derived before earlier moves)
+				par := r.Intn(len(depths))
+				if depths[par] >= 8 {
+					par = 0
+				}
+				if r.Bool() {
+					g := c18groupNames[r.Intn(len(c18groupNames))]
+					if r.Chance(10) {
+						g = ""
+					}
+					p = append(p, c18cmd{kind: 0, parent: par, group: g})
+				} else {
+					p = append(p, c18cmd{kind: 1, parent: par, attrs: c18attrs(r, 3, r.Intn(3))})
+				}
+				depths = append(depths, depths[par]+1)
+			case x < 45:
+				p = append(p, c18cmd{kind: 3, mask: pick()})
+			default:
+				h := r.Intn(len(depths))
+				if r.Chance(25) {
+					h = 0
+				}
+				kind := 2
+				if r.Bool() {
+					kind = 4
+				}
+				p = append(p, c18cmd{kind: kind, parent: h, level: c18level(r), msg: c18strings[r.Intn(len(c18strings))], attrs: c18attrs(r, 3, r.Intn(3))})
+			}
+		}
+		name := ""
+		if r.Chance(30) {
+			name = "svc." + c18groupNames[r.Intn(len(c18groupNames))]
+		}
+		c18runDyn(c, mask, name, p, fmt.Sprintf("dyn%d", enabler), enabler)
+	}
+}
+
 func c18(c *Ctx) {
 	r := NewRNG(c.Seed)
 	c18json = [4]int{}
@@ -823,6 +1037,8 @@ func c18(c *Ctx) {
 	}
 	c18random(c, r, n)
 	c18siblings(c, r, n/10)
+	c18levelMoves(c)
+	c18dynamic(c, r, n/2)
 	for _, v := range c18viols {
 		c.Viol(v.what, v.replay)
 	}
